@@ -50,6 +50,15 @@ pub fn case(ch: &mut Chooser, max_depth: u32) -> Report {
     if labels.applies > 0 {
         rep.label("apply");
     }
+    if labels.let_over_lambda > 0 {
+        rep.label("internal-def-let-over-lambda");
+    }
+    if labels.one_armed_if > 0 {
+        rep.label("one-armed-if-in-tail-position");
+    }
+    if labels.tail_statements > 0 {
+        rep.label("statement-in-tail-position-of-thunk");
+    }
     if labels.shadowings > 0 {
         rep.label("shadowing");
     }
